@@ -289,7 +289,10 @@ def hdl21_naming_encoder(obj: Any) -> Any:
         # Equal numbers written with different mantissa/prefix combinations (e.g. `1000*m` and `1*UNIT`)
         # are equal parameter values, and must produce the same name. Encode the value, not its fields.
         # (Normalized in the exact context: the default one would round away everything past 28 digits.)
-        return str(_EXACT.normalize(obj._value()))
+        value = obj._value()
+        if value == 0:
+            return "0"  # (Zero has a sign, and an exponent, of its own.)
+        return str(_EXACT.normalize(value))
 
     if isinstance(obj, (set, frozenset)):
         # Sets iterate in hash order, which differs from process to process. Encode their elements in a reproducible order.
